@@ -24,7 +24,9 @@ def enc_num(x) -> str:
         return f"i:{x}"
     if isinstance(x, float):
         return f"f:{fbits(x)}"
-    raise TypeError(f"not a number: {x!r}")
+    # anything else (a complex number, a string, an object) is a reading the model can never print: encode it so that the
+    # correspondence reports a difference instead of the harness crashing
+    return f"x:{type(x).__name__}:{str(x)[:40].replace(' ', '_')}"
 
 
 def dec_num(s: str):
